@@ -32,7 +32,8 @@ MANIFEST = dict(
          "comparison opcodes. For ANY number type whose partial_cmp is antisymmetric (IEEE doubles; proved for the "
          "exact instance): a == b equals b == a and `a op b` equals `b flip(op) a` for the four orderings, as results "
          "including errors (C11_eq_sym, C11_ord_sym); != is the negation of == (C11_ne); every ordering with a NaN "
-         "operand is false (C11_nan_false); when the ordering is defined exactly one of <, ==, > holds "
+         "operand is false, also when the NaN only arises in the conversion of non-NaN operands (C11_nan_false, "
+         "C11_nan_conv_false; the former panic `1 Rm^12/m < 1 Qm^11` is fixed); when the ordering is defined exactly one of <, ==, > holds "
          "(C11_trichotomy_f). Exact level: the ordering and == decide the order/equality of the physical quantities "
          "(C11_ord_exact, C11_eq_exact). All closed under the global context.",
     design_ref="DESIGN.md §6 C11, §7 #8; design/qty.md",
@@ -42,7 +43,7 @@ MANIFEST = dict(
     technique="Coq proof (structural for any number type + exact) + exhaustive unit-pair correspondence",
 )
 
-THEOREMS = ["C11_eq_sym", "C11_ord_sym", "C11_ne", "C11_nan_false", "C11_trichotomy_f", "C11_ord_exact", "C11_eq_exact"]
+THEOREMS = ["C11_eq_sym", "C11_ord_sym", "C11_ne", "C11_nan_false", "C11_nan_conv_false", "C11_trichotomy_f", "C11_ord_exact", "C11_eq_exact"]
 FLIP = {"<": ">", ">": "<", "=": "=", "n": "n", "i": "i"}
 NAN = "7ff8000000000000"
 
@@ -65,13 +66,14 @@ def replica_answers(tbl, va, ua, vb, ub):
 
 def run(chk):
     binary, tbl = qtylib.session()
-    proved = chk.prove("Props.C11", THEOREMS, ["theories/Props/C11.vo", "theories/Qty/Prelude.vo"],
+    proved = chk.prove("Props.C11", THEOREMS, ["theories/Props/C11.vo", "theories/Qty/Prelude.vo", "theories/Props/C11F.vo", "theories/Qty/PreludeF.vo"],
                        extra_obligations=["Qty.Prelude.prelude_wf", "Qty.Prelude.prelude_exact_int",
                                           "Qty.Prelude.prelude_exact_pos"])
     chk.trusted += [
         "model Qty/Model.v: qeq (impl PartialEq for Quantity), pcmp (partial_cmp_preserve_nan), vm_cmp (vm.rs opcodes)",
         "Gen/PreludeUnits.v generated from the hook dump on every run",
         "correspondence: coqc vm_compute of Qty.Exec.r_eq / r_ne / r_cmp / r_vmcmp vs harness qty (direct calls and interpret)",
+        "float-exact level: Qty/FloatExact.v instantiates the same model with the kernel's binary64 floats (PrimFloat; powi ported from compiler-rt; pow only as pow(x,1), pow(x,0), pow(1,y)) and must predict the implementation's answers on rounding-level ties and special magnitudes bit for bit",
         "f64 replica of the one-sided conversion for one-factor units (tools/props/qtylib.py replica_convert): used by the known-finding matcher",
     ]
     quick = chk.tier == "quick"
@@ -90,7 +92,11 @@ def run(chk):
             "R %s %s eq" % (qa, qb), "R %s %s eq" % (qb, qa), "R %s %s ne" % (qa, qb),
             "R %s %s cmp" % (qa, qb), "R %s %s cmp" % (qb, qa), "R " + qb]))
 
+    corpus_src = []
     for c in json.load(open(os.path.join(common.VERIF, "corpus", "c11.json"))):
+        if "src" in c:
+            corpus_src.append(c)
+            continue
         add("corpus", qtylib.f2bits(c["va"]), qtylib.parse_unit(c["ua"]),
             None if c.get("vb") is None else qtylib.f2bits(c["vb"]), qtylib.parse_unit(c["ub"]))
     mags = [40.5, 1.0, -3.25, 1e-7, 12345.678, 0.1, 7.0, 0.0]
@@ -138,6 +144,8 @@ def run(chk):
             srcs.append(dict(op=op, va=va, ua=ua, vb=vb, ub=ub, gid=gid,
                              line="S (%r * %s) %s (%s * %s)" % (va, sa, op, vb if vb == "NaN" else repr(vb), sb)))
 
+    for c in corpus_src:        # source text with the expected boolean
+        srcs.append(dict(op="corpus", va=None, ua=[], vb="NaN", ub=[], gid=-1 - len(srcs), line="S " + c["src"], expect=c["expect"]))
     lines = [l for c in cases for l in c["lines"]] + [s["line"] for s in srcs]
     outs = common.run_harness(binary, "qty", lines)
     pos = 0
@@ -149,12 +157,13 @@ def run(chk):
         pos += 1
 
     violations, known_hits = [], collections.defaultdict(list)
-    panics = replica_checked = replica_wrong = 0
+    panics = replica_checked = replica_wrong = nan_after_conv = float_cases = 0
     items, idx = [], []
     for n, c in enumerate(cases):
         e1, e2, ne, c1, c2, qb = c["obs"]
         if any(o.kind == "P" for o in c["obs"]):
-            panics += 1          # expect() on a NaN conversion: belongs to C08, not judged here
+            panics += 1
+            violations.append((c, "a comparison panicked: %s" % [o.raw[:20] for o in c["obs"][:5]]))
             continue
         if qb.kind != "Q" or e1.kind != "B" or e2.kind != "B" or ne.kind != "B" or c1.kind != "C" or c2.kind != "C":
             violations.append((c, "comparison of same-dimension quantities gave %s" % [o.raw[:30] for o in c["obs"][:5]]))
@@ -194,6 +203,14 @@ def run(chk):
                 replica_wrong += 1
                 violations.append((c, "f64 replica of the one-sided conversion predicts %s, implementation %s"
                                    % (rep, (e1.b, e2.b, c1.c, c2.c)), False))
+        # the f64 replica INSIDE Coq (Qty/FloatExact.v, kernel floats): must predict the implementation bit for bit
+        if (near or c["kind"].startswith("special")) and tbl.float_unit_supported(c["ua"]) and tbl.float_unit_supported(c["ub"]) \
+                and (not quick or float_cases < 900):
+            float_cases += 1
+            qa_f, qb_f = tbl.coq_qF(c["va"], c["ua"]), tbl.coq_qF(qb.bits, c["ub"])
+            for (fn, x, y, ob) in (("rf_eq", qa_f, qb_f, e1), ("rf_eq", qb_f, qa_f, e2), ("rf_cmp", qa_f, qb_f, c1), ("rf_cmp", qb_f, qa_f, c2)):
+                items.append(("%s PF_env %s %s" % (fn, x, y), ob.expected_model_string()))
+                idx.append(n)
         for tag, why in bad:
             matched = None
             if tag in ("eq", "ord") and near and c["ua"] != c["ub"] and rep == (e1.b, e2.b, c1.c, c2.c):
@@ -204,7 +221,11 @@ def run(chk):
             else:
                 violations.append((c, why))
         # exact model where the answer is an exact-level fact
-        if exact and not isnan and not near and finite and not tiny:
+        if not isnan and (c1.c == "n" or c2.c == "n"):
+            nan_after_conv += 1     # a conversion overflowed to inf/inf = NaN: f64 range, not an exact-level fact
+            if e1.b or e2.b or c1.c != "n" or c2.c != "n" or not ne.b:
+                violations.append((c, "NaN after conversion: cmp %s/%s, == %s/%s, != %s" % (c1.c, c2.c, e1.b, e2.b, ne.b)))
+        elif exact and not isnan and not near and finite and not tiny:
             qa_t, qb_t = tbl.coq_q(c["va"], c["ua"]), tbl.coq_q(qb.bits, c["ub"])
             full = (not quick) or n % 4 == 0
             for (fn, x, y, ob) in ((("r_eq", qa_t, qb_t, e1), ("r_eq", qb_t, qa_t, e2), ("r_ne", qa_t, qb_t, ne),
@@ -218,9 +239,14 @@ def run(chk):
         ob = s["obs"]
         if ob.kind == "P":
             panics += 1
+            violations.append((s, "`%s` panicked" % s["line"][2:]))
             continue
         if ob.kind != "B":
             violations.append((s, "operator %s on same-dimension quantities gave %s" % (s["op"], ob.raw[:40])))
+            continue
+        if s["op"] == "corpus":
+            if ob.b != s["expect"]:
+                violations.append((s, "`%s` gave %s, expected %s" % (s["line"][2:], ob.b, s["expect"])))
             continue
         if s["vb"] == "NaN":
             want = s["op"] == "!="
@@ -300,7 +326,7 @@ def run(chk):
         "case_kinds": dict(kinds), "operator_sources": len(srcs),
         "asymmetric_known": {k: len(v) for k, v in known_hits.items()},
         "replica_checked_ties": replica_checked, "replica_mispredictions": replica_wrong,
-        "c08_panics_not_judged": panics,
+        "float_exact_coq_cases": float_cases, "panics": panics, "nan_after_conversion_cases": nan_after_conv,
         "model_evaluations": len(items), "model_mismatches": len(mism), "oracle_failures": len(real),
         "oracle_failure_kinds": dict(collections.Counter(v[0].get("kind", "operator-source") for v in real)),
         "samples": [{"lines": cases[i]["lines"][:5], "implementation": [o.raw for o in cases[i]["obs"][:5]]}
@@ -309,7 +335,7 @@ def run(chk):
     chk.assumptions += [
         "exact level for the symmetry theorems; on operands equal up to rounding the f64 answer is not an exact-level fact and is "
         "checked against the f64 replica (one-factor units) instead",
-        "panics of partial_cmp_preserve_nan (NaN after conversion) belong to C08 and are not judged here",
+        "a NaN that arises in a conversion (overflow) is judged by the structural clauses only (all orderings false, == false)",
     ]
 
 
